@@ -1,8 +1,7 @@
 #!/usr/bin/env python3
 """C07  Expression trees follow the C/C++ operator grammar.
 
-prove:      coq/theories/Properties_C07.v  (parse (render e) = tree_of e over the stated fragment; the
-            skipDecl counter-example)
+prove:      coq/theories/Properties_C07.v  (parse (render e) = tree_of e over the stated fragment)
 correspond: extracted model (Ast/Run.v) vs the real tokenizer (harness/vh_c07.cpp: simplifyTokens1 ->
             prepareTernaryOpForAST + TokenList::createAst + validateAst) and vs `cppcheck --dump`
               spec-vs-impl   tree_of e            vs  the tree cppcheck reports for `render e`   (the property)
@@ -41,8 +40,8 @@ CORPUS = [
     ('c', ('a', 0, ('i', 14), ('f', ('i', 9)))),
     ('c', ('a', 0, ('i', 14), ('x', ('i', 10), ('k', ('i', 0), ('i', 1))))),
     ('c', ('a', 0, ('i', 14), ('b', 3, ('i', 3), ('b', 0, ('i', 0), ('g', ('i', 8), ('k', ('i', 1), ('i', 2))))))),   # no parens
-    ('c', ('a', 0, ('i', 14), ('b', 3, ('i', 3), ('r', ('b', 0, ('i', 0), ('g', ('i', 8), ('k', ('i', 1), ('i', 2)))))))),  # skipDecl
-    ('cpp', ('a', 0, ('i', 14), ('g', ('i', 8), ('k', ('b', 0, ('i', 0), ('g', ('i', 9), ('i', 1))), ('i', 3))))),   # skipDecl in args
+    ('c', ('a', 0, ('i', 14), ('b', 3, ('i', 3), ('r', ('b', 0, ('i', 0), ('g', ('i', 8), ('k', ('i', 1), ('i', 2)))))))),  # skipDecl shape (fixed by 7d6f057)
+    ('cpp', ('a', 0, ('i', 14), ('g', ('i', 8), ('k', ('b', 0, ('i', 0), ('g', ('i', 9), ('i', 1))), ('i', 3))))),   # skipDecl shape in args (fixed)
     ('c', ('a', 3, ('p', 4, ('i', 4)), ('p', 1, ('p', 1, ('i', 0))))),
     ('c', ('k', ('a', 0, ('i', 0), ('i', 1)), ('a', 0, ('i', 2), ('i', 3)))),
     ('c', ('a', 0, ('g', ('r', ('i', 8)), ('i', 1)), ('i', 2))),
@@ -180,13 +179,14 @@ def judge(run, recs, stream_prefix=""):
         e = rec["e"]
         nt = (rec["lang"], rec["text"]) if G.size(e) >= 3 else None
         # theorem instance
-        if rec["wf"] and not rec["decl_like"] and rec["labels_ok"]:
-            run.count(stream_prefix + "theorem-instance", None, nontrivial=nt, bucket="holds" if rec["thm"] else "FAILS")
+        if rec["wf"] and rec["labels_ok"]:
+            run.count(stream_prefix + "theorem-instance", None, nontrivial=nt,
+                      bucket=("holds" if rec["thm"] else "FAILS") + (",fnptr-decl-pattern" if rec["decl_like"] else ""))
             if not rec["thm"]:
                 thm.append(rec)
         else:
             run.count(stream_prefix + "theorem-instance", None, nontrivial=None,
-                      bucket="outside-hypotheses:" + ("not-wf" if not rec["wf"] else "decl-like" if rec["decl_like"] else "labels"))
+                      bucket="outside-hypotheses:" + ("not-wf" if not rec["wf"] else "labels"))
         if rec["status"] != "ok":
             run.count(stream_prefix + "spec-vs-impl", None, nontrivial=None, bucket="impl-rejects:" + rec.get("why", "")[:60])
             continue
@@ -243,14 +243,12 @@ def key_of(rec):
         return "memberTemplateLink"
     if comma_paren_assign(rec["strs"]) and not comma_paren_assign(rec.get("impl_strs", [])):
         return "parenRemovedBeforeAssign"
-    if rec["decl_like"]:
-        return "skipDecl"
     return "tree:" + hashlib.sha1((rec["lang"] + rec["text"]).encode()).hexdigest()[:12]
 
 
 def key_class(rec):
     k = key_of(rec)
-    return k if k in ("skipDecl", "memberTemplateLink", "parenRemovedBeforeAssign") else "other"
+    return k if k in ("memberTemplateLink", "parenRemovedBeforeAssign") else "other"
 
 
 def shrink(ev, rec, pred):
@@ -286,7 +284,7 @@ def report_prop(run, ev, rec):
                    "reported_tree": G.sexpr(small["impl_strs"], small["impl_links"]),
                    "reported_tokens": " ".join(small["impl_strs"]),
                    "unshrunk_statement": rec["text"] + " ;",
-                   "triggers_skipDecl_pattern": small["decl_like"],
+                   "fnptr_decl_pattern": small["decl_like"],
                    "angle_brackets_linked_as_template": bool(small.get("impl_linked_angle")),
                    "how": "put the declarations and `void vhf ( ) { <statement> }` in a .c/.cpp file; "
                           "build/repo/bin/cppcheck --dump; read astOperand1/astOperand2 of the operator tokens"})
